@@ -18,9 +18,10 @@ VARIABLE tid
 IsCall(t) == t.cfg.kind = "c17"
 Completed(t) == t.exc = "" /\ ~t.ood /\ t.stage = "done"
 
-\* Observation of site number s (histories: ONE CallPatch object used at
-\* several insertion sites; the first site is at the top level of the trace)
-NSites(t) == IF IsCall(t) THEN Len(t.cfg.sites) ELSE 1
+\* Observation of site number s (histories: ONE patch object used at several
+\* insertion sites; the first site is at the top level of the trace).  Every
+\* clause is evaluated on the code emitted at EVERY site.
+NSites(t) == Len(t.cfg.sites)
 Obs(t, s) == IF s = 1 THEN [pro |-> t.pro, body |-> t.body, epi |-> t.epi,
                             adjknown |-> t.adjknown, adj |-> t.adj, scratch |-> t.scratch,
                             cb |-> t.cb]
@@ -28,7 +29,7 @@ Obs(t, s) == IF s = 1 THEN [pro |-> t.pro, body |-> t.body, epi |-> t.epi,
 ParamsOf(t, s, a) ==
   LET o == Obs(t, s) IN
   IF IsCall(t) THEN ParamsC17(At(t.cfg, s), a, o.adjknown, o.adj)
-  ELSE ParamsC16(t.cfg, a, o.scratch, o.adjknown, o.adj)
+  ELSE ParamsC16(AtSite(t.cfg, s), a, o.scratch, o.adjknown, o.adj)
 EventsOf(t, s) ==
   LET o == Obs(t, s) IN
   o.pro \o <<E0("bodyentry")>> \o (IF IsCall(t) THEN o.body ELSE <<E0("havoc")>>)
@@ -78,8 +79,10 @@ Clauses16(t, R) ==
   LET c == t.cfg
       done == Completed(t)
   IN << <<"C16_Completes", TRUE, t.exc = "" \/ LegitRefusalC16(c, t.exc)>>,
+        <<"C16_RefusesUnservable", Unallocatable(c), t.exc = "ValueError">>,
         <<"C16_NoWriteAtOrAboveOriginalSp", done, All(R, NoWriteAtOrAboveOriginalSp)>>,
-        <<"C16_NoRedZoneWriteIfLeaf", done /\ c.leaf /\ RedZone(c.abi) > 0,
+        <<"C16_NoRedZoneWriteIfLeaf", done /\ RedZone(c.abi) > 0
+                                      /\ \E s \in DOMAIN c.sites : c.sites[s].leaf,
                                       All(R, NoRedZoneWriteIfLeaf)>>,
         <<"C16_ReadsOnlyOwnSlots", done, All(R, ReadsOnlyOwnSlots)>>,
         <<"C16_SpAlignedOnAccess", done /\ c.abi = "arm64", All(R, SpAlignedOnAccess)>>,
@@ -93,8 +96,9 @@ Clauses16(t, R) ==
         <<"C16_SpRestored", done, All(R, SpRestored)>>,
         <<"C16_ReportedAdjustment", done /\ t.adjknown, All(R, ReportedAdjustment)>>,
         <<"C16_AlignedIfAlignStack", done /\ c.align, All(R, AlignedIfAlignStack)>>,
-        <<"C16_ScratchOK", done, ScratchOK(c.abi, t.scratch, c.scratch,
-                                             SeqToSet(c.reads) \cup SeqToSet(c.clob))>> >>
+        <<"C16_ScratchOK", done,
+            done => \A s \in 1..NSites(t) : ScratchOK(c.abi, Obs(t, s).scratch, c.scratch,
+                                              SeqToSet(c.reads) \cup SeqToSet(c.clob))>> >>
 
 Clauses17(t, R) ==
   LET c == t.cfg
@@ -162,7 +166,11 @@ DiffState(t, R, a) ==
                      seen |-> [i \in DOMAIN P.exp |-> Short(SeenArg(P, S.calls[k], i))],
                      expected |-> [i \in DOMAIN P.exp |-> Short(P.exp[i])]]]]
 \* a run on which the clause fails, if it is a clause about single runs
-Witness(R) == IF \E x \in DOMAIN R : R[x].S.calls # <<>> /\
+Unbalanced(R, x) == R[x].S.sp # R[x].P.sp0 \/ R[x].S.badreads # {}
+                    \/ \E r \in DOMAIN R[x].S.regs \ R[x].P.may : R[x].S.regs[r] # InitTok(r)
+Witness(R) == IF \E x \in DOMAIN R : Unbalanced(R, x) THEN CHOOSE x \in DOMAIN R : Unbalanced(R, x)
+              ELSE
+              IF \E x \in DOMAIN R : R[x].S.calls # <<>> /\
                     \E k \in DOMAIN R[x].S.calls : ~ArgsOKModuloSymLoad(R[x].P, R[x].S.calls[k])
               THEN CHOOSE x \in DOMAIN R : \E k \in DOMAIN R[x].S.calls :
                                               ~ArgsOKModuloSymLoad(R[x].P, R[x].S.calls[k])
@@ -178,7 +186,7 @@ Diff(t, R, name) ==
 Drift(t) ==
   /\ ~t.ood
   /\ \E s \in 1..NSites(t) :
-       LET p == IF IsCall(t) THEN CallPredict(At(t.cfg, s)) ELSE Predict(t.cfg)
+       LET p == IF IsCall(t) THEN CallPredict(At(t.cfg, s)) ELSE Predict(AtSite(t.cfg, s))
            o == Obs(t, s)
        IN  \/ p.exc # t.exc
            \/ /\ t.exc = ""
